@@ -373,3 +373,58 @@ Example C19_ex_walk_recursive :
   DescribeWalk.describe_stage [tree] (DescribeWalk.a_array (DescribeWalk.AAlias 0)) false =
     DescribeWalk.WOk (DescribeWalk.DUnresolved sa).
 Proof. vm_compute. split; reflexivity. Qed.
+
+(* ---- the recursion of the describer on the ACTUAL side (Model/DescribeActual.v): both sides graphs of aliases.
+   `dreach env k (e, a) (e', a')`: the pair (e', a') is reached from (e, a) by moves of the describer's call graph
+   (any contained type of the expected type or the resolved type of an expected alias with the same actual type;
+   a contained type of the actual type when the actual type IS a constructor), k of them descending into the
+   actual type.  For ALL environments of aliases, cyclic or not, and all types: ---- *)
+From PcoreV Require Model.DescribeActual Proofs.DescribeActualProofs.
+
+(* the actual type of every recursive call is a contained type of the written actual type - an alias counts as a
+   leaf: it is never replaced by the type it resolves to - so at most `anodes a` different actual types are met *)
+Theorem C19_actual_stays_in_written_type :
+  forall env k e a e' a', DescribeActual.dreach env k (e, a) (e', a') ->
+    In a' (DescribeActual.asubterms a) /\ length (DescribeActual.asubterms a) = DescribeActual.anodes a.
+Proof. exact DescribeActualProofs.dreach_in_written_type. Qed.
+Print Assumptions C19_actual_stays_in_written_type.
+
+(* the number of descents into the actual type along any sequence of calls is bounded by the depth of the written
+   actual type: the recursion on the actual side is structural, however the aliases refer to each other *)
+Theorem C19_actual_descents_bounded :
+  forall env k e a e' a', DescribeActual.dreach env k (e, a) (e', a') ->
+    (k + DescribeWalk.depth a' <= DescribeWalk.depth a)%nat.
+Proof. exact DescribeActualProofs.dreach_descents. Qed.
+Print Assumptions C19_actual_descents_bounded.
+
+(* an alias on the actual side is never unfolded: the actual type stays that alias and no descent is made *)
+Theorem C19_actual_alias_never_unfolded :
+  forall env k e i e' a', DescribeActual.dreach env k (e, DescribeWalk.AAlias i) (e', a') ->
+    a' = DescribeWalk.AAlias i /\ k = 0%nat.
+Proof. exact DescribeActualProofs.dreach_actual_alias. Qed.
+Print Assumptions C19_actual_alias_never_unfolded.
+
+(* no infinite descent into an actual type, for every type graph (no environment is consulted) *)
+Theorem C19_actual_descent_well_founded : well_founded DescribeActualProofs.achild.
+Proof. exact DescribeActualProofs.achild_wf. Qed.
+Print Assumptions C19_actual_descent_well_founded.
+
+(* the check the correspondence makes on every observed description is the statement of C19_actual_descents_bounded *)
+Theorem C19_actual_descents_check :
+  forall a ds, DescribeActual.descents_ok a ds = true <-> Forall (fun d => (d <= DescribeWalk.depth a)%nat) ds.
+Proof. exact DescribeActualProofs.descents_ok_spec. Qed.
+Print Assumptions C19_actual_descents_check.
+
+(* List1 = Struct[{v => Integer, Optional[next] => List1}] against List2 = Struct[{v => String, Optional[next] => List2}]
+   (aliases 0 and 1): the expected side can be unfolded for ever (List1 -> its Struct -> the member next -> List1 ...),
+   the actual side is the alias List2 in every one of these pairs; against the written Struct of List2 the member
+   `next` is reached with one descent, and it is the alias again; the written Struct has depth 2 (the Optional key) *)
+Example C19_ex_actual_two_lists :
+  let env := DescribeActual.two_lists in
+  DescribeWalk.closed_env env = true /\
+  DescribeActual.dreach env 0 (DescribeWalk.AAlias 0, DescribeWalk.AAlias 1) (DescribeWalk.AAlias 0, DescribeWalk.AAlias 1) /\
+  DescribeActual.dreach env 1 (DescribeWalk.AAlias 0, DescribeActual.list_body 1) (DescribeWalk.AAlias 0, DescribeWalk.AAlias 1) /\
+  DescribeWalk.depth (DescribeActual.list_body 1) = 2%nat /\
+  DescribeActual.descents_ok (DescribeActual.list_body 1) [1%nat; 0%nat] = true /\
+  DescribeActual.descents_ok (DescribeWalk.AAlias 1) [1%nat] = false.
+Proof. exact DescribeActualProofs.ex_two_lists. Qed.
